@@ -9,6 +9,11 @@ RULE = ("one evaluation = one scheduler API call or one dispatch step (one real 
         "with their prev argument and answer, popped/pushed entry, dispatch, misfire, heap order) compared exactly; "
         "or one direct interrogation of a real SimpleTrigger / RunOnceTrigger (1..3 consecutive NextFireTime calls, each with the previous answer, intervals up to "
         "math.MaxInt64, prev up to math.MaxInt64: the additions a step at the real clock cannot reach); "
+        "every execution in a step is also related to its cause, independently of the model: the dequeued entry's fire time must be an answer the job's OWN trigger gave earlier, executed at most as often "
+        "as it was produced (scripted triggers fail / end with their own error, ErrTriggerExpired, or either wrapped); plus four directed sequences at every run (run-once job paused and resumed; a misfire "
+        "spanning two occurrences; Replace by a trigger with the same Description()). The stress engine (C03/C04/C08) passes a new trigger instance with every ScheduleJob (one in three finite, ending with its own "
+        "error or ErrTriggerExpired), counts a fire time as consumed only if the same instance produced it, starts the schedulers 350 ms late in 2 of 9 runs, and runs ResumeJob on a contended queue lock "
+        "(sync.Locker with 150 ms latency, PauseJob from a second goroutine in between: the trigger must not be asked from a moment before PauseJob was called); "
         "a sequence is non-trivial if it mixes API calls and steps; distinct by hash of the op-kind sequence")
 
 
